@@ -35,7 +35,7 @@ def handle (s : S) : List String → S × String
   | "thr" :: _ => (s, "ok")
   | ["msg", t, i, _kind, hex] => ({ s with frames := s.frames ++ [((t, i.toNat?.getD 0), hex)] }, "ok")
   | "step" :: tid :: point :: _case :: evs =>
-    let s := if point.endsWith "HandleWrite.lock" then { s with acq := s.acq ++ [(tid, lookupCur s tid)] } else s
+    let s := if point.endsWith ".lock" then { s with acq := s.acq ++ [(tid, lookupCur s tid)] } else s
     let s := evs.foldl (fun s e =>
       match e.splitOn ":" with
       | ["begin", i] => { s with cur := (tid, i.toNat?.getD 0) :: s.cur.filter (·.1 != tid) }
@@ -44,6 +44,7 @@ def handle (s : S) : List String → S × String
     (s, "ok")
   | ["wire", hex] => ({ s with wire := if hex == "-" then "" else hex }, "ok")
   | "end" :: how :: _ =>
+    if how.startsWith "stuck" then (s, s!"diff a goroutine blocked outside the controller's view ({how}): the instrumentation does not cover this code") else
     if how != "quiescent" then (s, s!"specviol execution does not come to rest: {how}") else
     if s.rets.any (·.2 != "ok") then (s, "diff a write did not succeed in a scenario without failures") else
     if s.rets.length != s.frames.length then (s, "diff not every write returned") else
